@@ -81,6 +81,11 @@ def configs(tier, seed):
     cfgs.append(dict(name="start point of A on B, dy=0", kind="translate", floats=True, fixed=["dy", "0"],
                      VA=[["2", "2"], ["2", "0"], ["0", "0"]], KA=["1", "2", "3"],
                      VB=[["1", "2"], ["3", "2"]], KB=["0", "1"], dxrange=["-1/2", "1/2"], endpoint=["1", "1/2", "-1/2"]))
+    # long parameter intervals (one knot span of length 10, a negative start): the answer may not depend on the parametrisation
+    cfgs.append(dict(name="long parameter intervals, dy=0", kind="translate", floats=True, fixed=["dy", "0"],
+                     VA=[["0", "0"], ["2", "0"]], KA=["0", "10"], VB=[["1", "-1"], ["1", "1"]], KB=["-7", "3"], dxrange=["-1/2", "1/2"]))
+    cfgs.append(dict(name="long parameter intervals, polyline, dx=0", kind="translate", floats=True, fixed=["dx", "0"],
+                     VA=[["0", "0"], ["2", "0"], ["2", "2"]], KA=["0", "5", "13"], VB=[["1", "-1"], ["1", "1"]], KB=["0", "8"]))
     cfgs.append(dict(name="bounding boxes never reject crossing segments", kind="box"))
     return cfgs
 
